@@ -2363,3 +2363,39 @@ LAYOUT = {
 def layout_skeletons():
     return [Skeleton("layout/%s" % k, prelude(2) + body, tape=2, fuel=300, meta={"rule": None, "first_line": prelude(2).count("\n") + 1})
             for k, body in sorted(LAYOUT.items())]
+
+
+# ---- layouts and constructs that are tricky for the rules that edit text directly (imports, spacing, duplicate
+# functions, constants): used by the validity / totality / purity / convergence pools (always, in both tiers)
+TRICKY = [
+    ("fixes.sort_imports", "local-import-then-col0-string", 'def main(v):\n    import json\n    text = """\ncolumn zero\n"""\n    return json.dumps(v), text\n\n\nprint(main(inp()))\n'),
+    ("fixes.sort_imports", "local-import-then-col0-bracket", 'def main(v):\n    import json\n    data = [\n        v,\n]\n    return json.dumps(data)\n\n\nprint(main(inp()))\n'),
+    ("fixes.sort_imports", "local-import-no-blank-line", 'def main(v):\n    import json\n    import os\n    x = v\n    return json.dumps(x), os.sep\n\n\nprint(main(inp()))\n'),
+    ("fixes.sort_imports", "import-in-if-block", 'if inp() > -9:\n    import json\n    x = """\nzero\n"""\nelse:\n    json = None\nprint(json is not None)\n'),
+    ("fixes.add_missing_imports", "future-parenthesised", 'from __future__ import (\n    annotations,\n)\n\nprint(os.sep, inp())\n'),
+    ("fixes.add_missing_imports", "formfeed-in-string", 'x = "a\x0cb"\nprint(os.sep, x, inp())\n'),
+    ("fixes.add_missing_imports", "docstring-and-future", '"""doc"""\nfrom __future__ import annotations\n\nprint(os.sep, inp())\n'),
+    ("fixes.add_missing_imports", "shebang-and-comment", '#!/usr/bin/env python3\n# comment\nprint(os.sep, inp())\n'),
+    ("fixes.move_imports_to_toplevel", "toplevel-from-import-last-line", 'def main(v):\n    import os\n    return os.sep, v\n\n\nprint(main(inp()))\nfrom os import sep'),
+    ("fixes.move_imports_to_toplevel", "import-in-function-and-class", 'class A:\n    import os\n\n    def m(self, v):\n        import os.path\n        return os.path.sep, v\n\n\nprint(A().m(inp()))\n'),
+    ("fixes.remove_duplicate_functions", "reference-on-last-line-of-duplicate", 'def first_function(a):\n    return a + 1\n\n\ndef f(a):\n    return a + 1\n\n\ndef g(v): return first_function(v) + f(v)\n\n\nprint(g(inp()))\n'),
+    ("fixes.remove_duplicate_functions", "recursive-duplicates", 'def long_name_one(a):\n    return long_name_one(a - 1) if a > 0 else 0\n\n\ndef b(a):\n    return b(a - 1) if a > 0 else 0\n\n\nprint(long_name_one(inp()), b(inp()))\n'),
+    ("fixes.simplify_collection_unpacks", "starred-dict-unpack", 'def main(a):\n    return [*{**a}], [*{1: 2}], {*{**a}}\n\n\nprint(main({1: inp()}))\n'),
+    ("symbolic_math.simplify_math_iterators", "sum-of-odd-ranges", 'def main(v):\n    out = []\n    for f in (lambda: sum(range()), lambda: sum([1, "a"]), lambda: sum(range(3), 5), lambda: sum([])):\n        try:\n            out.append(f())\n        except TypeError:\n            out.append("TypeError")\n    return out, v\n\n\nprint(main(inp()))\n'),
+    ("abstractions.overused_constant", "non-ascii-constant", 'def main(v):\n    return ["h\u00e9llo w\u00f6rld, long enough", "h\u00e9llo w\u00f6rld, long enough", "h\u00e9llo w\u00f6rld, long enough", "h\u00e9llo w\u00f6rld, long enough", "h\u00e9llo w\u00f6rld, long enough", v]\n\n\nprint(main(inp()))\n'),
+    ("abstractions.overused_constant", "constant-in-default-and-decorator", 'def deco(text):\n    return lambda f: f\n\n\n@deco("a fairly long constant text")\ndef main(v, t="a fairly long constant text"):\n    return [t, "a fairly long constant text", "a fairly long constant text", "a fairly long constant text", v]\n\n\nprint(main(inp()))\n'),
+    ("fixes.fix_line_lengths", "long-line-in-nested-block", 'def main(v):\n    if v > -9:\n        for i in range(1):\n            result = {"alpha": v + 1000000, "beta": v + 2000000, "gamma": v + 3000000, "delta": v + 4000000, "epsilon": v}\n    return result\n\n\nprint(main(inp()))\n'),
+    ("fixes.fix_line_lengths", "long-elif-and-lambda", 'def main(v):\n    f = lambda aaaaaaaaaaaa, bbbbbbbbbbbbbb, cccccccccccccc, dddddddddddddd: aaaaaaaaaaaa + bbbbbbbbbbbbbb + cccccccccccccc + dddddddddddddd\n    if v > 100000000000 and v < 200000000000 and v != 150000000000 and v != 160000000000 and v != 170000000000:\n        return 1\n    elif v > 300000000000 and v < 400000000000 and v != 350000000000 and v != 360000000000 and v != 370000000000:\n        return 2\n    return f(v, 1, 2, 3)\n\n\nprint(main(inp()))\n'),
+    ("fixes.deinterpolate_logging_args", "nested-format-spec", 'import logging\n\n\ndef main(v, w):\n    logging.debug(f"{v:>{w}}")\n    logging.log(10, f"{v:{w}.{w}f}")\n    logging.debug(f"{v:}")\n    logging.debug(f"{v!r:>10} {{literal}}")\n    return v\n\n\nprint(main(inp(), 3))\n'),
+]
+
+
+def tricky_skeletons():
+    """Text-level skeletons (validity / totality / purity / convergence only look at the texts; the programs
+    that need a missing import or start with a __future__ import are not executed anywhere)."""
+    out = []
+    for rule, vid, body in TRICKY:
+        text = body if "__future__" in body or body.startswith("#!") else prelude(3) + body
+        out.append(Skeleton("tricky/%s/%s" % (rule.split(".")[-1], vid), text, tape=3, fuel=400,
+                            meta={"rule": "rule:" + rule, "first_line": 0 if text is body else prelude(3).count("\n") + 1}))
+    return out
